@@ -22,7 +22,7 @@ MANIFEST = {
              'Assumes pwr_out_max_init <= pwr_out_max, dt > 0, η in (0,1].'),
 }
 EXPLANATION = 'Guard inventory (ensure!/bail! conditions that dominate Ok exits) as SVN terms vs reference terms; spec-term equivalence for published limits.'
-RULES = ['C09-0.tolerance', 'C09-1.guard', 'C09-2.published', 'C09-3.chain', 'C09-4.bound']
+RULES = ['C09-0.tolerance', 'C09-1.guard', 'C09-2.published', 'C09-3.chain', 'C09-4.bound', 'C09-5.rampbase']
 ASSUMPTIONS = ['dt > 0', 'efficiency values in (0,1]', 'pwr_out_max_init <= pwr_out_max', 'ratings > 0']
 
 TOL = num('0.001')
@@ -126,6 +126,17 @@ def run(ctx):
         need(ctx, an, k + '.req<=transient', 'engine shaft power within published transient limit',
              almost('utils::almost_le_uom', req, sv.pre('pwr_out_max'), ('some', TOL)), gate=[(al, True)])
         need(ctx, an, k + '.req>=0', 'engine shaft power non-negative', req.ge(0))
+        # the value recorded as "previous shaft power" (the base the next transient limit ramps from, C09-2) is stored only
+        # after it has passed the rating / transient / sign tests: a demand rejected by them must not become the ramp base
+        gs = [has_guard(an, almost('utils::almost_le_uom', req, rating, ('some', TOL)), gate=[(al, True)]),
+              has_guard(an, almost('utils::almost_le_uom', req, sv.pre('pwr_out_max'), ('some', TOL)), gate=[(al, True)]),
+              has_guard(an, req.ge(0))]
+        stores = [(bb, span) for bb, path, val, span in an.stores_log if path == sv.path('pwr_brake')]
+        cfg = inv.cfg(b)
+        early = [bb for bb, span in stores for g in gs if g is not None and g.block in cfg._reach_from(bb) and g.block != bb]
+        ctx.check(bool(stores) and all(g is not None for g in gs) and not early, 'C09-5.rampbase', k + '.pwr_brake',
+                  'the shaft power is recorded (as the base of the next transient limit) only after the rating, transient-limit and sign tests',
+                  'state.pwr_brake is stored in %s, before a limit test can still reject the demand' % sorted(set(early)), ctx.where(b, stores[0][1] if stores else None))
     # ------------------------------------------------------------------ Generator
     for b in inv.writers('GeneratorState', 'pwr_elec_prop_out'):
         if is_raw_setter(b): continue
